@@ -1,21 +1,24 @@
 (* C02 property theorems: statements closed by `exact lemma`, Print Assumptions, and Examples (non-vacuity / concrete
    histories evaluated on the model).
 
-   Status of the main refinement statement
+   Main statement (closed, for ALL histories; proof in Refine.v):
 
-     C02_read_is_lww : forall h s tmin tmax fs asc, ops_allowed h ->
+     C02_read_is_lww : forall h, ops_allowed h = true -> forall s tmin tmax fs asc,
         read_layout (run false h) s tmin tmax fs asc = shape tmin tmax fs asc (sel s (lww_table (writes_of h)))
 
-   is NOT closed as one theorem over `run`. What is proved (for all tables / rows, no bound) are its induction steps at
-   the level of the precedence algebra - the theorems below; they are collected in C02_read_is_lww_partial.
-   Missing to close the full statement: (a) sort_dedup (stable sort + left-to-right replace, the code-shaped function
-   the evaluator runs) = lww_table; (b) the induction over `run` that ties the list-of-files bookkeeping (insert_file
-   with a fresh sequence = append, replace_run of an adjacent group, the bound-driven placement of merge_ooo, the
-   flush-time scan) to these algebraic steps; (c) ord_cat s = sel s (ord_prod ..) under ord_ok_from. All three are
-   exercised on every run by the correspondence (the evaluator executes exactly these functions against the real
-   shard) and by the Examples at the end of this file. *)
+   h ranges over every list of ops  Write (any rows: partial fields, late, repeated keys) | Flush | BeginFlush | EndFlush
+   (paused flush: reads with a live snapshot table) | Compact (level / full: adjacent groups) | MergeOOO | MergeSelf |
+   Reopen, with the sequence numbers / groups / per-file bounds the store chose as op parameters. `ops_allowed` is the
+   decidable planner/store predicate (op_ok: fresh sequences, adjacent runs, oldest-prefix; written rows carry >= 1 field
+   with ascending ids; layout_ok after each op: ordered files time-increasing per series) - the SAME boolean the
+   correspondence evaluates on every replayed history (codes 4 and 5). `run false` is the repaired model (log replayed in
+   acknowledgement order, merge-self in sequence order); today's variants are refuted in Refuted.v.
+   C02_read_sorted_no_duplicates is the "sorted by time, no duplicate timestamps per series" conclusion,
+   C02_read_lookup_is_replay the (series,timestamp,field)-map form, C02_sort_dedup_code_shaped ties the code-shaped
+   ColumnSortHelper.Sort model to the replay, C02_reorganisation_invisible is the corollary for flush / compaction /
+   merges / reopen. *)
 From Coq Require Import ZArith List Bool.
-From OG Require Import C02.Model C02.Proofs.
+From OG Require Import C02.Model C02.Proofs C02.Corr C02.Refine.
 Import ListNotations.
 Open Scope Z_scope.
 
@@ -73,16 +76,52 @@ Theorem C02_redistribute_invisible : forall (p : key -> bool) T, wf_table T ->
   over (kfilter p T) (kfilter (fun k => negb (p k)) T) = T.
 Proof. exact split2_product. Qed.
 
-Theorem C02_read_is_lww_partial :
-  (forall raw, wf_raw raw -> wf_table (lww_table raw) /\ forall k f, get2 (lww_table raw) k f = lww_get raw k f) /\
-  (forall a b k f, wf_table a -> wf_table b -> get2 (over a b) k f = orelse (get2 a k f) (get2 b k f)) /\
-  (forall a b c, wf_table a -> wf_table b -> wf_table c -> over (over a b) c = over a (over b c)) /\
-  (forall (late : key -> bool) T U O, wf_table T -> wf_table U -> wf_table O ->
-     (forall k, late k = false -> get kcmp T k <> None -> get kcmp U k = None /\ get kcmp O k = None) ->
-     over (over (kfilter late T) U) (over (kfilter (fun k => negb (late k)) T) O) = over T (over U O)) /\
-  (forall a b, wf_table a -> wf_table b -> (forall k f, get2 a k f = get2 b k f) -> a = b).
-Proof. exact (conj lww_table_spec (conj get2_over (conj over_assoc (conj flush_split_invisible table_ext)))). Qed.
-Print Assumptions C02_read_is_lww_partial.
+(* the code-shaped stable sort + left-to-right replace (what ColumnSortHelper.Sort does and the evaluator runs) IS the
+   last-write-wins table of the row sequence - for every row sequence, no side condition *)
+Theorem C02_sort_dedup_code_shaped : forall raw, sort_dedup raw = lww_table raw.
+Proof. exact sort_dedup_lww. Qed.
+Print Assumptions C02_sort_dedup_code_shaped.
+
+(* MAIN: for every allowed history, every series, time range, field subset and direction, the read of the layout equals
+   the shaped last-write-wins replay of the acknowledged writes *)
+Theorem C02_read_is_lww : forall h, ops_allowed h = true -> forall s tmin tmax fs asc,
+  read_layout (run false h) s tmin tmax fs asc = shape tmin tmax fs asc (sel s (lww_table (writes_of h))).
+Proof. exact read_layout_is_lww. Qed.
+Print Assumptions C02_read_is_lww.
+
+(* rows come back sorted by time (strictly: no duplicate timestamps), all of the series asked for, none empty;
+   ascending or descending *)
+Theorem C02_read_sorted_no_duplicates : forall h, ops_allowed h = true -> forall s tmin tmax fs asc,
+  time_ordered asc s (read_layout (run false h) s tmin tmax fs asc).
+Proof. exact read_sorted. Qed.
+Print Assumptions C02_read_sorted_no_duplicates.
+
+Theorem C02_descending_is_reverse : forall L s tmin tmax fs,
+  read_layout L s tmin tmax fs false = rev (read_layout L s tmin tmax fs true).
+Proof. exact descending_is_reverse. Qed.
+
+(* map form: the value a read holds at (series, timestamp, field) is the one the replay of all acknowledged writes in
+   acknowledgement order left there (a later write replaces the fields it carries, the others stay) *)
+Theorem C02_read_lookup_is_replay : forall h, ops_allowed h = true -> forall s t f,
+  get2 (read_series (run false h) s) (s, t) f = lww_get (writes_of h) (s, t) f.
+Proof. exact read_lookup_is_replay. Qed.
+Print Assumptions C02_read_lookup_is_replay.
+
+(* flush (plain or paused), level / full compaction, out-of-order merge, merge-self and close/reopen change no read *)
+Theorem C02_reorganisation_invisible : forall h o, ops_allowed (h ++ [o]) = true -> write_free o = true ->
+  forall s, read_series (run false (h ++ [o])) s = read_series (run false h) s.
+Proof. exact reorganisation_invisible. Qed.
+Print Assumptions C02_reorganisation_invisible.
+
+(* the evaluator's variant selector: (wal replay repaired, merge-self mode 0) is the model the theorems are about *)
+Theorem C02_evaluator_variant_is_repaired : forall h, run2 false 0 h = run false h.
+Proof. exact run2_repaired. Qed.
+
+(* a history on which the correspondence evaluator reports no mismatch (repaired variant) satisfies the hypothesis of
+   the theorems above: the runtime check and the theorem speak about the same predicate *)
+Theorem C02_evaluator_accepts_only_allowed : forall c, check_case false 0 c = None -> ops_allowed (map fst (snd c)) = true.
+Proof. exact check_case_allowed. Qed.
+Print Assumptions C02_evaluator_accepts_only_allowed.
 
 (* ---- Examples: concrete histories on the executable model (closed by vm_compute) ---- *)
 Definition r (s t : Z) (fs : list (Z * Z)) : row := ((s, t), fs).
@@ -94,9 +133,7 @@ Definition h1 : list op :=
     MergeOOO [4] [(1, [(0,5);(1,7)]); (7, [(0,6)])]; Reopen 1 true 9 10; Write [r 0 5 [(0,7)]]; Flush false 11 12 ].
 
 (* hypotheses are satisfiable: every op of h1 is allowed in the state it is applied to, the layout invariant holds *)
-Example C02_example_ops_allowed :
-  fst (fold_left (fun (st : bool * layout) o => (fst st && op_ok (snd st) o && layout_ok (step false (snd st) o), step false (snd st) o))
-                 h1 (true, init)) = true.
+Example C02_example_ops_allowed : ops_allowed h1 = true.
 Proof. vm_compute. reflexivity. Qed.
 
 (* the read of every series equals the last-write-wins replay of the writes, ascending and descending, with a range
